@@ -9,6 +9,8 @@ from harness import c20_judge
 
 def replay(f):
     w = f["witness"]
+    if w.get("trymode"):
+        return _replay_try(w)
     tmp = tempfile.mkdtemp(prefix="c20replay")
     try:
         proj = rproject.Project(tmp, ropefolder=None)
@@ -35,5 +37,52 @@ def replay(f):
             return dict(reproduced=False, signature="", detail="sound")
         cats = sorted({p.split(":")[0] for p in problems})
         return dict(reproduced=True, signature="c20:%s|%s" % (w["skeleton"], "|".join(cats)), detail="module %r cursor %d (shown %r): %s" % (w["full"], w["offset"], w["src"], " | ".join(problems[:4])))
+    finally:
+        shutil.rmtree(tmp, ignore_errors=True)
+
+
+def _replay_try(w):
+    """go-to-definition in the broken module (unfinished try block above the cursor), judged on the
+    valid twin that has the same lines and the same bindings"""
+    tmp = tempfile.mkdtemp(prefix="c20replay")
+    try:
+        proj = rproject.Project(tmp, ropefolder=None)
+        try:
+            try:
+                loc = codeassist.get_definition_location(proj, w["src"], w["offset"], maxfixes=w["maxfixes"])
+                defloc = [None if loc[0] is None else loc[0].path, loc[1]]
+            except rex.RopeError:
+                return dict(reproduced=False, signature="", detail="refused")
+            except Exception as e:
+                return dict(reproduced=True, signature="c20:%s:internal-defloc:%s" % (w["skeleton"], type(e).__name__), detail="get_definition_location(%r, %d) raised %s: %s" % (w["src"], w["offset"], type(e).__name__, e))
+        finally:
+            proj.close()
+        problems = c20_judge.judge(w["full"], w["full"], w["twin_offset"], None, defloc, False)
+        if not problems:
+            return dict(reproduced=False, signature="", detail="sound")
+        line = w["src"].count("\n", 0, w["offset"]) + 1
+        where = "defined-below-the-repair" if defloc[1] is not None and defloc[1] > 5 else "defined-above-the-repair"
+        # root cause: in a repaired module rope first evaluates the WORD under the cursor as an expression in
+        # the scope of that line - the keyword of a call is then taken for a variable of that spelling
+        import ast
+
+        full, toff = w["full"], w["twin_offset"]
+        tree = ast.parse(full)
+        starts = [0]
+        for i, ch in enumerate(full):
+            if ch == "\n":
+                starts.append(i + 1)
+        word_end = toff
+        while word_end < len(full) and (full[word_end].isalnum() or full[word_end] == "_"):
+            word_end += 1
+        word_start = toff
+        while word_start > 0 and (full[word_start - 1].isalnum() or full[word_start - 1] == "_"):
+            word_start -= 1
+        word = full[word_start:word_end]
+        is_kw = any(isinstance(n, ast.keyword) and n.arg == word and starts[n.lineno - 1] + n.col_offset == word_start for n in ast.walk(tree))
+        top = {n.id for st in tree.body for n in ast.walk(st) if isinstance(n, ast.Name) and isinstance(n.ctx, ast.Store) and not isinstance(st, (ast.FunctionDef, ast.ClassDef))}
+        if is_kw and word in top:
+            where = "keyword-argument-spelled-like-a-variable"
+        return dict(reproduced=True, signature="c20:%s|trydef-definition@%s" % (w["skeleton"], where), detail="module %r cursor %d (line %d): %s" % (w["src"], w["offset"], line, " | ".join(problems[:4])))
     finally:
         shutil.rmtree(tmp, ignore_errors=True)
